@@ -9,10 +9,9 @@ from tools import dfir, vlib
 class C22(dfir.DfirSpec):
     tag = "C22"
     props_vo = "theories/Props/C22.vo"
-    theorems = ["C22_perturbation_operators", "C22_identity_insert", "C22_pull_push", "C22_realisation_is_model", "C22_partition_shape", "C22_gadgets", "C22_splice_preserves", "C22_rename_preserves_run"]
+    theorems = ["C22_perturbation_operators", "C22_identity_insert", "C22_pull_push", "C22_realisation_is_model", "C22_partition_shape", "C22_gadgets", "C22_splice_preserves", "C22_rename_preserves_run", "C22_cycles_preserved", "C22_compile_agreement"]
     modes = ("ticks", "avail")
-    level = "other"
-    explanation = "Not category proof: (iii) compile/fail agreement is not a Coq theorem: the edge-subdivision lemma (splicing a non-delayed pass-through node into an edge preserves same-tick cycles both ways, over e6-partition's is_cycle / same_tick_deps, which with C19_rejects_iff_cycle would give equal accept/reject verdicts) is not written; every catalogue variant compiles and the formerly rejected variant is a regression probe. Proved: (i) pull = push realisation for fold, persist, fold_keyed, sort_by_key (C22_pull_push, C22_realisation_is_model); (ii) every well-formed partition of a flat graph computes its denotation (C22_partition_shape); identity, tee+null and union+null are pass-through gadgets (C22_gadgets); splicing any pass-through gadget into any flat graph preserves sink outputs, tick counts and the states of the original operators over every history (C22_splice_preserves); and the denotation is invariant under injective renamings of wire and operator ids (C22_rename_preserves_run), which is how a lowered variant relates to `splice` of its base."
+    level = "proof"
     assumptions = [
         "the operator models do not distinguish the pull and push realisations of a write_fn; equality of the two "
         "realisations and of different partitions is tested (variant against variant, and each variant against the "
@@ -20,8 +19,9 @@ class C22(dfir.DfirSpec):
         "perturbation grammar: identity chains, tee()+null() in front of every input (operator pushed / handoff in "
         "front of pull-only operators), union()+null() behind the output (operator pulled), tee then union in "
         "front (forced handoff), identity-tee-union behind the output (output crosses a handoff)",
-        "compile/fail agreement is checked only through compile probes of the variants rustc is known to reject; "
-        "cycle rejection agreement is property C19",
+        "compile/fail agreement: theorem on engine E6's partitioner model for loop-free, reference-free flat graphs "
+        "(C22_compile_agreement via C19); observed on every run: every variant of every group is in the compiled "
+        "harness (bit 0 otherwise) and the formerly rejected variant is a regression probe",
     ]
     rule = ("group of 6 shape variants of one operator x persistence program (32 operators) x one random history, run "
             "under run_tick_sync or run_available_sync; non-trivial = some tick has input and some sink recorded output")
@@ -57,7 +57,17 @@ class C22(dfir.DfirSpec):
         return {"group": case["group"], "variants": [dfir.catalogue()[i].name for i in case["progs"]],
                 "case": case, "impl": res}
 
+    def compiled(self):
+        """compile/fail agreement, observed: the base and every gadget-spliced variant of every group
+        were accepted by the real partitioner and rustc -- they are all in the built harness binary"""
+        if not hasattr(self, "_compiled"):
+            r = vlib.run_harness(self.ctx, self.bin, [{"k": "list"}], name="list")[0]
+            self._compiled = set(r.get("progs", []))
+        return self._compiled
+
     def to_coq(self, case, res):
+        if any(dfir.catalogue()[i].name not in self.compiled() for i in case["progs"]):
+            return 1
         if self.failed(res):
             return 3
         p = dfir.catalogue()[case["progs"][0]]
